@@ -823,7 +823,10 @@ func (app *App) approveSwitchover(switchover *Switchover, activeNodes []string, 
 		return fmt.Errorf("switchover failed %d times, giving up after reaching switchover_max_attempts (%d)",
 			switchover.RunCount, app.config.SwitchoverMaxAttempts)
 	}
-	if switchover.RunCount > 0 {
+	if switchover.RunCount > 0 || !switchover.StartedAt.IsZero() {
+		// approved before: by this manager in an earlier attempt, or by a manager that died (or lost
+		// the lock) after it had started the procedure - the topology it left behind (e.g. the new
+		// master already promoted, no replica left) must not be judged as if nothing had happened
 		return nil
 	}
 	permissibleSlaves := countAliveHASlavesWithinNodes(activeNodes, clusterState)
